@@ -50,6 +50,10 @@ def apply(name):
         from streamz import dask as sd
         mutate(sd.gather, "update", "result2 = yield self._emit(result, metadata=metadata)", "result2 = self._emit(result, metadata=metadata)")
         return
+    if name == "batch_filter_drop":
+        import streamz.batch as sb
+        sb._filter = lambda seq, predicate: list(filter(predicate, seq))[1:]      # Batch.filter loses the first survivor of every batch
+        return
     if name == "corrupt_log":
         return
     table[name]()
